@@ -164,16 +164,32 @@ pub mod c_api {
         }
     }
 
+    // The pointer is into the value's own buffer and lives as long as the value: only a value that
+    // lies on byte boundaries there has bytes to point at. The values handed to the host
+    // (xeh_pop, xeh_vector_at) are brought into that form by `host_value`.
     #[no_mangle]
     pub unsafe extern "C" fn xeh_bitstr_bytes(val: *const Xcell) -> *const u8 {
         match (*val).value() {
-            Xcell::Bitstr(s) => 
-                if let Some(bytes) = s.bytestr() {
-                    bytes.as_ptr()
-                } else {
-                    null()
-                },
+            Xcell::Bitstr(s) => match s.slice() {
+                Some(bytes) => bytes.as_ptr(),
+                None => null(),
+            },
             _ => null(),
+        }
+    }
+
+    // a byte string that starts in the middle of a byte of its buffer (a field read behind a
+    // few bits) is copied into a buffer of its own, tags kept
+    fn host_value(val: Xcell) -> Xcell {
+        match val.value() {
+            Xcell::Bitstr(s) if s.is_bytestr() && s.slice().is_none() => {
+                let own = Xcell::Bitstr(s.clone().detach());
+                match val.tags() {
+                    Some(tags) => own.with_tags(tags.clone()),
+                    None => own,
+                }
+            }
+            _ => val,
         }
     }
 
@@ -198,7 +214,7 @@ pub mod c_api {
         match (*val).value() {
             Xcell::Vector(v) => {
                 if let Some(c) = v.get(idx) {
-                    Box::into_raw(Box::new(c.clone()))
+                    Box::into_raw(Box::new(host_value(c.clone())))
                 } else {
                     null_mut()
                 }
@@ -218,7 +234,7 @@ pub mod c_api {
     pub unsafe extern "C" fn xeh_pop(xs: *mut Xstate) -> *mut Xcell {
         let mut xs = Box::from_raw(xs);
         let result = if let Ok(val) = xs.pop_data() {
-            Box::into_raw(Box::new(val))
+            Box::into_raw(Box::new(host_value(val)))
         } else {
             null_mut()
         };
